@@ -12,6 +12,7 @@ P = {'id': 'C17',
               'cmap_shard_is_lru',
               'read_correct',
               'page_cache_history_correct',
+              'overwrite_then_invalidate_coherent',
               'cached_get_is_inner_get'],
  'trusted': ['modelled (M+S): src/containers/specialized/lru_map.rs (LruList insert_head/remove/move_to_head, LruMap get/put/remove/contains_key/len/clear/evict_lru/allocate_node), '
              'src/containers/specialized/concurrent_lru_map.rs (Hash routing, per-shard dispatch, clear, len), src/cache/basic_cache.rs (LruPageCache read loop, get_page with invalidation '
